@@ -17,5 +17,14 @@ Lemma pg_type_spec : forall p sz, pg_type p sz =
   match p with PString => TVarchar sz | PInt => TInteger | PDate => TDate | POther => TVarchar 50 end.
 Proof. intros [] sz; reflexivity. Qed.
 
+(* the switch itself, arm by arm: a new / changed arm (e.g. another primitive mapped to a real SQL type) is an
+   obligation even when the four classes of `prim` cannot tell *)
+Local Open Scope string_scope.
+Lemma pg_table_expected :
+  (pg_types, pg_default, str_const, bigint_const, default_text_size) =
+  ([("string", Sized "varchar (" ")"); ("int", Lit "integer"); ("date", Lit "date")], Lit "varchar (50)", "string", "bigint", 50%N).
+Proof. reflexivity. Qed.
+Local Close Scope string_scope.
+
 Lemma default_size_is : default_text_size = 50%N. Proof. reflexivity. Qed.
 Lemma bigint_ty_is : bigint_ty = TBigint. Proof. reflexivity. Qed.
